@@ -214,7 +214,8 @@ def run_harness(h, known=(), want_trace=True, deadline=None):
     shims.inject(mods, h.shim_names, h.shim_extra())
     tracer = FuncTracer()
     state = dict(first=True, stop=False)
-    prover = solve.Prover(timeout_ms=h.prove_timeout_ms, int_first=getattr(h, "prove_int_first", False))
+    prover = solve.Prover(timeout_ms=h.prove_timeout_ms, int_first=getattr(h, "prove_int_first", False),
+                          arrays=getattr(h, "prove_arrays", None))
 
     def body():
         if deadline and time.time() > deadline:
